@@ -20,6 +20,22 @@ KEYS21 = [(i, j) for i in range(1, 7) for j in range(i, 7)]
 ORTHO9 = [(1, 1), (2, 2), (3, 3), (1, 2), (1, 3), (2, 3), (4, 4), (5, 5), (6, 6)]
 
 
+_VOIGT = {(1, 1): 1, (2, 2): 2, (3, 3): 3, (2, 3): 4, (3, 2): 4, (1, 3): 5, (3, 1): 5, (1, 2): 6, (2, 1): 6}
+
+
+def spell(rng, key, style=None):
+    """A random column label for the component with Voigt key (I, J), I <= J: prefix, case, index order and two- or four-index
+    spelling vary; all of them name the same component (minor and major symmetry)."""
+    I, J = key
+    style = int(rng.integers(0, 7)) if style is None else style
+    if style == 5:                                   # two-index label in lower-triangle order
+        return "c%d%d" % (J, I)
+    if style == 6:                                   # any four-index member of the class
+        members = [(a, b, c, d) for (a, b), va in _VOIGT.items() for (c, d), vb in _VOIGT.items() if {va, vb} == {I, J} and (va, vb) in ((I, J), (J, I))]
+        return str(rng.choice(["c", "C", "c_"])) + "%d%d%d%d" % members[int(rng.integers(0, len(members)))]
+    return ["c%d%d", "C%d%d", "c_%d%d", "Cij%d%d", "S%d%d"][style] % (I, J)
+
+
 def eulerian(v0, v):
     return ((v0 / v) ** (2.0 / 3.0) - 1.0) / 2.0
 
@@ -147,6 +163,8 @@ class Dataset:
             cols = [cols[i] for i in pres["col_perm"]]
         upper = upper or bool(pres.get("upper"))
         names = [("C%d%d" if upper else "c%d%d") % k for k in cols]
+        if pres.get("spell"):                        # arbitrary spellings of the same components (seeded by the data set's generator)
+            names = [spell(self.rng, k, 6 if pres["spell"] == "four" else None) for k in cols]
         t = ["synthetic static table", f"{self.vref:.8f} {self.nv_static} {self.cellmass:.6f}", "V " + " ".join(names)]
         rperm = pres.get("row_perm") or list(range(self.nv_static))
         for i in rperm:
